@@ -54,7 +54,7 @@ func (c *attachClient) PreAssign(e *Engine, st *State, lhs, rhs []ast.Expr, _ as
 			e.Site("C02/attach", key, sel, true, "target subquery was created on this path")
 			continue
 		}
-		bk := e.Canon(base)
+		bk := e.CanonSt(st, base)
 		if !bk.OK {
 			e.Site("C02/attach", key, sel, false, "store target is not a trackable variable; cannot decide that no LIMIT/ORDER BY is pending")
 			continue
